@@ -50,9 +50,11 @@ PROPS = {
     "C05": dict(
         level="proof",
         functions=[f"Dispatcher.{k}" for k in ("raw_ready_operations", "available_operations", "current_time",
-                                                "unscheduled_operations", "scheduled_operations")]
+                                                "unscheduled_operations", "scheduled_operations", "ongoing_operations")]
         + [f"Dispatcher.{k}$raw" for k in ("raw_ready_operations", "available_operations", "current_time",
-                                            "unscheduled_operations", "scheduled_operations", "uncompleted_operations")]
+                                            "unscheduled_operations", "scheduled_operations", "uncompleted_operations",
+                                            "ongoing_operations")]
+        + ["lemma_machine_ends_monotone"]
         + ["Dispatcher.next_operation", "Dispatcher.earliest_start_time", "Dispatcher.start_time",
            "Dispatcher.min_start_time", "Dispatcher.is_operation_ready", "Dispatcher._update_tracking_attributes",
            "Dispatcher.reset", "Dispatcher.__init__", "Dispatcher.dispatch",
@@ -60,7 +62,9 @@ PROPS = {
         lemmas=["min-start-unique", "complete-iff-every-job-finished"],
         tierb=True,
         trusted=[T_OBSERVERS,
-                 "Dispatcher.ongoing_operations used through an assumed contract (well-formed result, cache invariant kept)",
+                 "ghost lemma contracts/ghost_src.py::lemma_machine_ends_monotone (sidecar Python, verified like repository "
+                 "code): on one machine the end times do not decrease with the position",
+                 "the list ongoing_operations builds is placed in the second list region (a static partition of list objects)",
                  "abstract filter contract for third-party ready_operations_filter callables",
                  "query specs are carried in the cache invariant as opaque atoms over the local heap components they "
                  "depend on (contents of the three tracking vectors, filter, ghost prefix sums, the value); the "
@@ -72,7 +76,13 @@ PROPS = {
                      "dispatch/reset/__init__ clear the cache before observers run; no verified body mutates a list borrowed "
                      "from a cached query (uncompleted_operations included); next_operation, earliest_start_time, start_time, "
                      "is_operation_ready equal their definitions",
-                     "bounded only: the values of ongoing_operations, completed_operations, uncompleted_operations, "
+                     "proved: the body of ongoing_operations returns EXACTLY the scheduled operations that end after the value "
+                     "current_time() answered with (every element is one, every one is listed, machine by machine, latest "
+                     "first, no duplicates; reversed scan with break justified by the ghost lemma); its public contract is "
+                     "the real wrapper composed with that body (no assumed contract left); uncompleted_operations returns the "
+                     "unscheduled operations followed by the operations of ongoing_operations()",
+                     "bounded only: that a CACHED ongoing_operations answer still equals the recomputation (the cache invariant "
+                     "carries only its shape; dispatch / reset clear every key: proved), the values of completed_operations, "
                      "available_machines, available_jobs, is_scheduled/is_ongoing, current_time under a filter; the "
                      "UnscheduledOperationsObserver mirror is proved per call (reset establishes it, update re-establishes it "
                      "after each dispatch); its construction on a dispatcher with history (itertools.chain) is bounded"],
